@@ -1135,12 +1135,12 @@ def check_C06(tier):
             continue
         if kind == "deep":
             deepvals.setdefault(iid, {}).setdefault(r["value"], []).append(bits)
-            if r.get("phase_clamps", 0) > 0:
+            if r.get("phase_clamps", 0) > 0 or r.get("phase_drifted_root"):
                 clamped.add(iid)
             continue
         if kind == "qs":
             qsvals.setdefault(iid, {}).setdefault(r["value"], []).append(bits)
-            if r.get("phase_clamps", 0) > 0:
+            if r.get("phase_clamps", 0) > 0 or r.get("phase_drifted_root"):
                 clamped.add(iid)
             continue
         want = mm[iid]
